@@ -16,12 +16,19 @@ The model is tied to the code by the exhaustive correspondence of `harness/c03.p
   - `rename_in_place_roles`, `rename_in_place_roles_tables` — (d) lifted to histories: RW‑only history in which `x` is never
     read by a statement that writes nothing nor written by a statement that reads nothing and `y` does not occur, followed by
     `RENAME x TO y`;
-  - the hypothesis is not idle: `rename_loses_tags_witness`; `rename_selfloop_witness`, `rename_isolated_vanishes_witness`.
-  Lemmas: `Proofs/RelabelLemmas.lean`.  Not covered by a general theorem: RENAME in the MIDDLE of a history (the invariant
-  `Inv` speaks of RW‑only prefixes; `rename_in_place` itself applies to any well‑formed state), multi‑pair RENAME.
+  - `rename_in_place_any_history`, `rename_in_place_roles_any_history` — the same at ANY point of ANY history (DROP / RENAME
+    statements before it included): every fold state is well‑formed and free of SELFLOOP tags (`fold_wf`,
+    `fold_no_selfloop_tag` in `Proofs/RelabelLemmas.lean`); hypotheses on the state: `y` absent, `x` without SOURCE_ONLY /
+    TARGET_ONLY;
+  - the hypotheses are not idle: `rename_loses_tags_witness` (tags), `rename_onto_existing_witness` (`y` absent);
+    `rename_selfloop_witness`, `rename_isolated_vanishes_witness`.
+  Lemmas: `Proofs/RelabelLemmas.lean`.  Not covered by a general theorem: the hypotheses of the any‑history form are stated on
+  the fold state, not on the history, when DROP/RENAME statements precede (the invariant `Inv` speaks of RW‑only histories);
+  the role transfer of a multi‑pair RENAME; renaming onto an existing table (a merge, not "in place").
 -/
 import SqlLineage.Proofs.AStmtLemmas
 import SqlLineage.Proofs.RelabelLemmas
+import SqlLineage.Proofs.C10Assemble
 
 namespace SqlLineage.Props.C03
 open SqlLineage Graph Assemble AStmt
@@ -893,6 +900,63 @@ theorem rename_in_place_roles_tables (ss : List AStmt) (x y : String) (hrw : RWO
   · rw [(hr (tn x)).2.1]; simp [hne]
   · rw [(hr (tn x)).2.2]; simp [hne]
 
+/-! RENAME at any point of any history (DROP and RENAME statements before it included) -/
+
+/-- **`rename_in_place` applies at every point of every script**: `ss` is an ARBITRARY history of abstract statements, `g` the
+    state of the fold after it (always well‑formed: `fold_wf`).  If `y` does not occur in `g`, then `RENAME x TO y` puts `y`
+    exactly in `x`'s place in the state the rest of the script continues from. -/
+theorem rename_in_place_any_history (ss : List AStmt) (g : LGraph) (x y : String) (hxy : x ≠ y)
+    (hg : foldAll id Graph.empty (ss.map holderOf) = .ok g) (hy : tn y ∉ g.nodes) :
+    ∃ g', foldAll id Graph.empty ((ss ++ [AStmt.rename [(x, y)]]).map holderOf) = .ok g' ∧
+      (∀ n, n ∈ g'.nodes ↔ (n ≠ tn x ∧ n ∈ g.nodes) ∨ (n = tn y ∧ g.degree (tn x) ≠ 0)) ∧
+      (∀ e, e ∈ g'.edges ↔ ∃ u v, (u, v) ∈ g.edges ∧ e = (rmap (tn x) (tn y) u, rmap (tn x) (tn y) v)) ∧
+      (∀ u v, (u, v) ∈ g.edges → g'.ety (rmap (tn x) (tn y) u) (rmap (tn x) (tn y) v) = g.ety u v ∧
+                                 g'.idx (rmap (tn x) (tn y) u) (rmap (tn x) (tn y) v) = g.idx u v) ∧
+      (∀ n tg, n ≠ tn x → n ≠ tn y → g'.tag n tg = g.tag n tg) ∧
+      (∀ tg, g'.tag (tn y) tg = none) ∧
+      WF g' := by
+  obtain ⟨g', hstep⟩ := rename_single_pair_total g x y
+  refine ⟨g', ?_, rename_in_place g g' x y hxy (fold_wf id ss g hg) hy hstep⟩
+  simp only [List.map_append, List.map_cons, List.map_nil, foldAll_append, hg, foldAll, hstep]
+
+/-- **roles, at any point of any history**: if moreover `x` carries neither SOURCE_ONLY nor TARGET_ONLY in the state `g`
+    (for an RW‑only history that is `¬ srcOnly ss x ∧ ¬ tgtOnly ss x`: `rename_in_place_roles`), the summary of the script cut
+    after the RENAME is the summary of the script cut before it with `y` in `x`'s place. -/
+theorem rename_in_place_roles_any_history (ss : List AStmt) (g : LGraph) (x y : String) (hxy : x ≠ y)
+    (hg : foldAll id Graph.empty (ss.map holderOf) = .ok g) (hy : tn y ∉ g.nodes)
+    (hs : g.tag (tn x) .sourceOnly ≠ some true) (ht : g.tag (tn x) .targetOnly ≠ some true) :
+    ∃ G G', AStmt.build ss = .ok G ∧ AStmt.build (ss ++ [.rename [(x, y)]]) = .ok G' ∧
+      ∀ n,
+        (n ∈ sourceTables G' ↔ (n ≠ tn x ∧ n ≠ tn y ∧ n ∈ sourceTables G) ∨ (n = tn y ∧ tn x ∈ sourceTables G)) ∧
+        (n ∈ targetTables G' ↔ (n ≠ tn x ∧ n ≠ tn y ∧ n ∈ targetTables G) ∨ (n = tn y ∧ tn x ∈ targetTables G)) ∧
+        (n ∈ intermediateTables G' ↔
+          (n ≠ tn x ∧ n ≠ tn y ∧ n ∈ intermediateTables G) ∨ (n = tn y ∧ tn x ∈ intermediateTables G)) := by
+  obtain ⟨g', hg', ha, _⟩ := rename_in_place_any_history ss g x y hxy hg hy
+  have hstep : foldStep id g (holderOf (.rename [(x, y)])) = .ok g' := by
+    simp only [List.map_append, List.map_cons, List.map_nil, foldAll_append, hg, foldAll] at hg'
+    cases hst : foldStep id g (holderOf (.rename [(x, y)])) with
+    | ok g1 => rw [hst] at hg'; exact hg'
+    | error e => rw [hst] at hg'; cases hg'
+  have hwf := fold_wf id ss g hg
+  have hl : g.tag (tn x) .selfloop ≠ some true := by
+    rw [fold_no_selfloop_tag id ss g hg]; exact fun e => by cases e
+  have hc : ∀ n ∈ g.nodes, n.isCol = false :=
+    (Proofs.C10Assemble.noCols_foldAll _ Proofs.C10Assemble.noCols_empty (fun h hh => by
+      obtain ⟨s, _, rfl⟩ := List.mem_map.mp hh
+      exact Proofs.C10Assemble.noCols_holderOf s) hg).nodes
+  have hc' : ∀ n ∈ g'.nodes, n.isCol = false := by
+    intro n hn
+    rcases (ha n).mp hn with ⟨_, h1⟩ | ⟨rfl, _⟩
+    · exact hc n h1
+    · exact tn_isCol y
+  have hb : AStmt.build ss = .ok (tagSelfloops g) := by
+    simp only [AStmt.build, Assemble.build, buildWith, hg]
+    exact tail_eq g hc
+  have hb' : AStmt.build (ss ++ [.rename [(x, y)]]) = .ok (tagSelfloops g') := by
+    simp only [AStmt.build, Assemble.build, buildWith, hg']
+    exact tail_eq g' hc'
+  exact ⟨_, _, hb, hb', rename_in_place_roles_graph g g' x y hxy hwf hy hs ht hl hstep⟩
+
 /-- a table one statement both reads and writes keeps that status under its new name: source and target, not intermediate -/
 theorem rename_selfloop_witness :
     (match AStmt.build [.rw ["x"] (some "x"), .rename [("x", "y")]] with
@@ -905,6 +969,15 @@ theorem rename_isolated_vanishes_witness :
     (match AStmt.build [.rw [] (some "x")] with | .ok g => g.nodes == [tn "x"] | _ => false) = true ∧
     (match AStmt.build [.rw [] (some "x"), .rename [("x", "y")]] with | .ok g => g.nodes == [] | _ => false) = true := by
   decide
+
+/-- the hypothesis "`y` does not occur yet" is not idle either: renaming ONTO an existing table merges the two — `x` was a
+    source, but `y` ends up intermediate (it keeps its own incoming edge) -/
+theorem rename_onto_existing_witness :
+    (match AStmt.build [.rw ["x"] (some "a"), .rw ["b"] (some "y")],
+           AStmt.build [.rw ["x"] (some "a"), .rw ["b"] (some "y"), .rename [("x", "y")]] with
+      | .ok G, .ok G' => ((sourceTables G).contains (tn "x"), (sourceTables G').contains (tn "y"),
+                          intermediateTables G' == [tn "y"])
+      | _, _ => (false, true, false)) = (true, false, true) := by decide
 
 /-! ### non‑vacuity -/
 
@@ -936,5 +1009,19 @@ example :
     rcases hm with ⟨rfl, _⟩ | ⟨rfl, _⟩ <;> simp at hy
   · simp [writtenSomewhere]
   · simp [self, feeds]
+
+/-- the hypotheses of `rename_in_place_roles_any_history` are satisfiable after a history WITH a DROP and a RENAME, and the
+    conclusion is not vacuous there: `a → x`, `DROP c`, `RENAME a TO a2`, `x → b`, then `RENAME x TO y` -/
+example :
+    let ss : List AStmt := [.rw ["a"] (some "x"), .drop "c", .rename [("a", "a2")], .rw ["x"] (some "b")]
+    (match foldAll id Graph.empty (ss.map holderOf) with
+      | .ok g => !g.hasNode (tn "y") && g.hasNode (tn "x") && g.tag (tn "x") .sourceOnly != some true &&
+                 g.tag (tn "x") .targetOnly != some true
+      | _ => false) = true ∧
+    (match AStmt.build ss, AStmt.build (ss ++ [.rename [("x", "y")]]) with
+      | .ok G, .ok G' => (sourceTables G == [tn "a2"], targetTables G == [tn "b"], intermediateTables G == [tn "x"],
+                          sourceTables G' == [tn "a2"], targetTables G' == [tn "b"], intermediateTables G' == [tn "y"])
+      | _, _ => (false, false, false, false, false, false)) = (true, true, true, true, true, true) := by
+  decide
 
 end SqlLineage.Props.C03
